@@ -818,7 +818,15 @@ func isLogLine(op string) bool {
 // sideFile, in the stress child, receives every failure as it is found (one JSON object per line).
 var sideFile *os.File
 
+// sideRec is one line of the side file: the finding and the request lines of its case so far (`op => answer`),
+// the judged log line last.  If the child dies, the parent rebuilds the failing cases from these records.
+type sideRec struct {
+	hx.Finding
+	Lines []string `json:"lines"`
+}
+
 func fail(r *hx.Run, kind, oracle, detail, line string) {
+	full := line
 	if len(line) > 600 {
 		line = line[:600] + "…"
 	}
@@ -828,7 +836,11 @@ func fail(r *hx.Run, kind, oracle, detail, line string) {
 	}
 	r.Fail(oracle, detail+" | "+line, sig)
 	if sideFile != nil {
-		if b, err := json.Marshal(hx.Finding{Oracle: oracle, Detail: detail + " | " + line, Signature: sig}); err == nil {
+		lines := r.CaseLines()
+		if len(full) < 20000 && isLogLine(full) {
+			lines = append(lines, full+" => accept")
+		}
+		if b, err := json.Marshal(sideRec{hx.Finding{Oracle: oracle, Detail: detail + " | " + line, Signature: sig}, lines}); err == nil {
 			sideFile.Write(append(b, '\n'))
 		}
 	}
